@@ -49,9 +49,10 @@ ASSUMPTIONS = [
     "the WHERE pattern's solution sequence is the listed rows (checked on every case against rdflib itself: SELECT of all variables)",
     "CPython sorted() is a stable sort (the model uses insertion sort; on a strict weak order every stable sort gives the same list)",
     "CPython's datetime module is what Model.lean transcribes (_ymd2ord, _days_before_month, field checks, isoformat); compared on every case with temporal terms / probes (`cal` line)",
-    "Python int/Decimal arithmetic is exact on the generated magnitudes; generated xsd:double values are small dyadic "
-    "rationals so float sums are exact; AVG quotients (Decimal 28 digits / float) are compared after rounding to the "
-    "nearest fraction with denominator <= 10^6",
+    "Python int/Decimal arithmetic is exact on the generated magnitudes; CPython float arithmetic is IEEE 754 binary64 "
+    "round-to-nearest-even and repr() the shortest round-tripping form (modelled in lean/RV/C08/Float.lean and compared exactly, "
+    "value and lexical form, on every double / float cell); decimal AVG quotients (Decimal, 28 digits) are compared after rounding "
+    "to the nearest fraction with denominator <= 10^6 plus their fraction digits",
     "an error of an aggregate's argument expression for a row either removes that row from the aggregate (rdflib, pinned by its "
     "own tests) or makes the aggregate an error/unbound (SPARQL 18.5.1 read literally): both are accepted, aborting the query is not",
     "GROUP BY over zero solutions may yield zero rows (18.5 Group) or one row without bindings (W3C test agg-empty-group): both accepted",
@@ -189,9 +190,9 @@ def canon_desc(d):
     if k == "D":
         f = Fraction(d[1], 10 ** d[2])
         return f"Q:decimal:{f.numerator}/{f.denominator}~{d[2]}"  # the TERM: value and fraction digits
-    if k == "F":
-        f = Fraction(d[1], 10 ** d[2])
-        return f"Q:{d[3] if len(d) > 3 else 'double'}:{f.numerator}/{f.denominator}"
+    if k == "F":  # the binary64 value of the lexical form, exactly, and the lexical form
+        f = Fraction(float(dec_lex(d[1], d[2])))
+        return f"Q:{d[3] if len(d) > 3 else 'double'}:{f.numerator}/{f.denominator}~{dec_lex(d[1], d[2])}"
     if k == "B":
         return f"B:{d[1]}"
     if k == "S":
@@ -223,6 +224,9 @@ def canon_term(t):
         dt = str(t.datatype) if t.datatype is not None else None
         if dt in _numeric_dts() and t.value is not None and not isinstance(t.value, bool):
             try:
+                if dt in (XS + "double", XS + "float") and isinstance(t.value, float):
+                    f = Fraction(t.value)  # exact binary64 value + the lexical form
+                    return f"Q:{dt[len(XS):]}:{f.numerator}/{f.denominator}~{str(t)}"
                 f = Fraction(t.value).limit_denominator(10 ** 6)
                 sc = ""
                 if dt == XS + "decimal":  # fraction digits of the lexical form; "x" = a quotient cut at 28 digits
@@ -248,6 +252,8 @@ def canon_tok(tk):
     k, _, rest = tk.partition(".")
     if k == "Q":
         dt, n, dd, sc = rest.split(".")
+        if sc.startswith("L"):
+            return f"Q:{dt}:{n}/{dd}~{uncps(sc[1:])}"
         return f"Q:{dt}:{n}/{dd}" + (("~x" if int(sc) > 20 else "~" + sc) if dt == "decimal" else "")
     if k == "B":
         return "B:" + rest
@@ -477,6 +483,18 @@ def time_of(c):
     return None
 
 
+FLOATING = ("double", "float")
+
+
+def float_close(na, nb):
+    """two numeric cells, one of them floating, whose exact values are within rounding distance: the checker computes with
+    exact fractions, a binary64 computation may land on either side — no demand is derived from such a pair"""
+    if na[0] not in FLOATING and nb[0] not in FLOATING:
+        return False
+    x, y = na[1], nb[1]
+    return x != y and abs(x - y) <= Fraction(1, 10 ** 9) * max(1, abs(x), abs(y))
+
+
 def spec_lt(a, b):
     """SPARQL 15.1: True/False where the order of the two keys is fixed, None where it is left open"""
     ra, rb = cell_rank(a), cell_rank(b)
@@ -491,6 +509,8 @@ def spec_lt(a, b):
     if ra == 3:
         na, nb = num_of(a), num_of(b)
         if na and nb:
+            if float_close(na, nb):
+                return None
             return na[1] < nb[1]
         if a.startswith("S:") and b.startswith("S:") and a.endswith("@") and b.endswith("@"):
             return a[2:-1] < b[2:-1]
@@ -550,6 +570,8 @@ class Ev:
         if not isinstance(a, str) or not isinstance(b, str):
             return {"B:0", "B:1", "-"}
         na, nb = num_of(a), num_of(b)
+        if na and nb and (float_close(na, nb) or (na[1] == nb[1] and (na[0] in FLOATING or nb[0] in FLOATING) and "~" not in a + b)):
+            return {"B:0", "B:1"}  # a computed double within rounding distance of the other operand: not judged
         if na and nb:
             x, y = na[1], nb[1]
             r = {"<": x < y, ">": x > y, "=": x == y, "!=": x != y, "<=": x <= y, ">=": x >= y}[op]
@@ -672,6 +694,12 @@ def cell_ok(cell, admissible):
         return True
     if "~" in cell and cell.partition("~")[0] in admissible:
         return True  # a computed decimal: SPARQL fixes its value and datatype, not its lexical form
+    nc = num_of(cell)
+    if nc and nc[0] in FLOATING:  # binary64 arithmetic: the checker's exact value, up to rounding
+        for a in admissible:
+            na = num_of(a) if isinstance(a, str) else None
+            if na and na[0] == nc[0] and (na[1] == nc[1] or float_close(na, nc)):
+                return True
     for a in admissible:
         if isinstance(a, tuple) and a[0] == "GC" and cell.startswith("S:") and cell.endswith("@"):
             _, sep, pieces = a
@@ -788,7 +816,7 @@ def _scale_of(e, sol):
         n = num_of(c) if isinstance(c, str) else None
         if not n:
             return None
-        if "~" in c:
+        if "~" in c and n[0] == "decimal":
             return int(c.partition("~")[2])
         return 0 if base_dt(n[0]) == "integer" else None
     if e[0] in "+-":
@@ -888,7 +916,8 @@ def check_result(case, sols, vars_, rows, raw_rows):
             computed = {p[2] for p in q["proj"] if p[0] == "e" and not (
                 p[1][0] == "agg" and p[1][1] in ("MIN", "MAX", "SAMPLE", "COUNT", "GROUP_CONCAT") and (p[1][3] == "*" or p[1][3][0] == "v"))}
             fuzzy = any(c.startswith(("Q:decimal", "Q:double", "Q:float")) for r in rows for v, c in zip(vars_, r) if v in computed)
-            if (len(rows) < len(want)) or (len(rows) > len(want) and not fuzzy):
+            fuzzy_float = any(c.startswith(("Q:double", "Q:float")) for r in rows for v, c in zip(vars_, r) if v in computed)
+            if (len(rows) < len(want) and not fuzzy_float) or (len(rows) > len(want) and not fuzzy):
                 viol.append(f"distinct: {len(rows)} rows, the query has {len(want)} distinct solutions")
         if not viol and not assign(rows, vars_, items, descs, ordered, False):
             viol.append("order: DISTINCT answer is not in ORDER BY order" if ordered else "distinct: rows cannot be matched")
@@ -995,6 +1024,8 @@ def run_impl(case):
                                                 ["v", e[1]] not in q["proj"] for e, _d in q["order"]))}
     ntime = sum(1 for r in case["rows"] for c in r if c is not None and c[0] in "TY")
     stats["cases_with_dateTime_or_date"] = int(ntime > 0)
+    stats["cases_with_nondyadic_double"] = int(any(c is not None and c[0] == "F" and Fraction(float(dec_lex(c[1], c[2]))) != Fraction(c[1], 10 ** c[2])
+                                                   for r in case["rows"] for c in r))
     stats["cases_with_uppercase_language_tag"] = int(any(c is not None and c[0] == "S" and c[2] != c[2].lower() for r in case["rows"] for c in r))
     stats["temporal_cells"] = ntime
     for p in q["proj"]:
@@ -1239,7 +1270,10 @@ def select_model_obs(case, out):
 
 INTS = [0, 1, 2, 3, -2, 10, 1, 2]
 DECS = [(5, 1), (15, 1), (20, 1), (-125, 2), (25, 1), (10, 1), (333, 2), (100, 2), (150, 2), (200, 2), (50, 2)]
-DBLS = [(15, 1), (25, 2), (20, 1), (-10, 1)]
+# xsd:double / xsd:float: dyadic values, values that are not binary fractions (0.1 + 0.2 != 0.3 in binary64, the sum depends
+# on the order), 2^53 (1.0 is absorbed); every lexical form is the repr() of its value
+DBLS = [(15, 1), (25, 2), (20, 1), (-10, 1), (1, 1), (2, 1), (3, 1), (7, 1), (11, 1), (1, 1), (3, 1), (90071992547409920, 1), (10, 1)]
+assert all(repr(float(dec_lex(m, s_))) == dec_lex(m, s_) for m, s_ in DBLS)
 STRS = ["", "a", "b", "ab", "B", "10", "a"]
 IRIS = ["a", "b", "A", "r0"]
 BNS = ["b1", "b2"]
@@ -1291,6 +1325,12 @@ def gen_term(rng, profile, bn_ok):
         if r < 0.85:
             return ["S", rng.choice(STRS), ""]
         return ["S", rng.choice(["a", "b"]), rng.choice(["en", "fr", "en", "fr", "EN"])]
+    if profile == "dbl":  # doubles (now and then a float / decimal / integer): binary64 sums, left to right
+        if r < 0.8:
+            return ["F"] + list(rng.choice(DBLS))
+        if r < 0.88:
+            return ["F"] + list(rng.choice(DBLS[:11])) + ["float"]
+        return ["D"] + list(rng.choice(DECS)) if r < 0.95 else ["I", rng.choice(INTS)]
     if profile == "time":  # xsd:dateTime / xsd:date, now and then something else
         if r < 0.85:
             return gen_time(rng)
@@ -1327,7 +1367,7 @@ def gen_case(rng, tier, i):
     src = rng.choice(["values"] * 5 + ["optional"] * 3 + ["bgp"] * 2 + ["empty"])
     nv = rng.choice([1, 2, 2, 3, 3])
     names = ["a", "b", "c"][:nv]
-    profiles = [rng.choice(["int", "num", "num", "str", "key", "key", "mixed", "mixed", "time"]) for _ in names]
+    profiles = [rng.choice(["int", "num", "num", "str", "key", "key", "mixed", "mixed", "time", "dbl"]) for _ in names]
     nrows = 0 if src == "empty" else rng.choice([0, 1, 2, 3, 4, 5, 6, 7, 8, 9]) if src == "values" else rng.randint(1, 8)
     p_unbound = 0.0 if src == "bgp" else rng.choice([0, 0.1, 0.25, 0.5])
     rows = []
